@@ -111,7 +111,7 @@ def graph_specs(ctx) -> list[dict]:
     specs: list[dict] = [{"family": "diamond"}]
     specs += [{"family": "ladder", "depth": d} for d in depths]
     specs += [{"family": "every_edge", "dedup": True}, {"family": "all_kinds", "dedup": True}]
-    nrand = 30 if ctx.thorough else 6
+    nrand = 60 if ctx.thorough else 16
     specs += [{"family": "random", "seed": ctx.seed * 1000 + i, "size": 30, "dedup": True}
               for i in range(nrand)]
     # with structurally equal duplicates
